@@ -466,6 +466,7 @@ class Evaluator:
         self.order = {}  # (keyA, keyB) -> 'lt' | 'eq' | 'gt'   (facts assumed by the rule: ORD enumeration)
         self.facts = {}  # cond key -> bool
         self.faults = []  # (kind, ast node, text, base key): constant subscripts outside a known shape
+        self.strmod_nodes = set()  # BinOp(Mod) nodes whose left operand evaluated to a string
 
     def assume_order(self, a, b, rel):
         ka, kb = key(a), key(b)
@@ -765,6 +766,18 @@ class Evaluator:
     def _mk_template(self, parts):
         if all(p[0] == "lit" for p in parts):
             return Const("".join(p[1] for p in parts))
+        # a string inserted verbatim into a string is part of that string: splice nested templates / constants
+        spliced = []
+        for p in parts:
+            if p[0] != "lit" and p[2] in ("raw", "%s", "str", "f:", "f:!s") and isinstance(p[1], Template):
+                spliced.extend(p[1].parts)
+            elif p[0] != "lit" and p[2] in ("raw", "%s", "str", "f:", "f:!s") and isinstance(p[1], Const) and isinstance(p[1].v, str):
+                spliced.append(("lit", p[1].v))
+            else:
+                spliced.append(p)
+        parts = spliced
+        if all(p[0] == "lit" for p in parts):
+            return Const("".join(p[1] for p in parts))
         flat = []
         for p in parts:
             if p[0] == "lit":
@@ -820,19 +833,32 @@ class Evaluator:
             v = self.expr(n.values[i], st)
             if i == len(n.values) - 1:
                 return v
-            t = self.truth(v)
-            if isinstance(t, Const):
+            cache = []
+
+            def rest_():
+                if not cache:
+                    cache.append(go(i + 1))
+                return cache[0]
+
+            def short(x, depth=0):
+                t = self.truth(x)
+                if isinstance(t, Const):
+                    if isand:
+                        return rest_() if t.v else x
+                    return x if t.v else rest_()
+                if isinstance(x, Phi) and depth < 6:
+                    # the operand is itself a choice: decide each alternative separately
+                    return mkphi(x.cond, short(x.a, depth + 1), short(x.b, depth + 1))
+                rest = rest_()
+                boolish = isinstance(x, (Cond,)) or (isinstance(x, Const) and isinstance(x.v, bool))
+                rboolish = isinstance(rest, (Cond,)) or (isinstance(rest, Const) and isinstance(rest.v, bool))
+                if boolish and rboolish:
+                    return self._bool_join(isand, [x, rest])
                 if isand:
-                    return go(i + 1) if t.v else v
-                return v if t.v else go(i + 1)
-            rest = go(i + 1)
-            boolish = isinstance(v, (Cond,)) or (isinstance(v, Const) and isinstance(v.v, bool))
-            rboolish = isinstance(rest, (Cond,)) or (isinstance(rest, Const) and isinstance(rest.v, bool))
-            if boolish and rboolish:
-                return self._bool_join(isand, [v, rest])
-            if isand:
-                return mkphi(t, rest, v)
-            return mkphi(t, v, rest)
+                    return mkphi(t, rest, x)
+                return mkphi(t, x, rest)
+
+            return short(v)
 
         return go(0)
 
@@ -919,8 +945,15 @@ class Evaluator:
             return TRUE if any(p[0] == "lit" and p[1] for p in v.parts) else Cond(("truth", v))
         if isinstance(v, Phi):
             a, b = self.truth(v.a), self.truth(v.b)
-            if isinstance(a, Const) and isinstance(b, Const) and a.v == b.v:
-                return a
+            if isinstance(a, Const) and isinstance(b, Const):
+                if a.v == b.v:
+                    return a
+                return v.cond if a.v else cnot(v.cond)
+            if isinstance(a, Const):
+                # (c and a) or (not c and b)
+                return self._bool_join(False, [v.cond, b]) if a.v else self._bool_join(True, [cnot(v.cond), b])
+            if isinstance(b, Const):
+                return self._bool_join(False, [cnot(v.cond), a]) if b.v else self._bool_join(True, [v.cond, a])
         return Cond(("truth", v))
 
     def e_Compare(self, n, st):
@@ -971,9 +1004,9 @@ class Evaluator:
             if isinstance(a, Const) and isinstance(b, Const) and (a.v is None or b.v is None or isinstance(a.v, bool)):
                 r = a.v is b.v
                 return Const(r if op == "is" else not r)
-            if isinstance(b, Const) and b.v is None and (isinstance(a, (Num, Seq, DictV, Closure, ClassRef, Template, MapV, StrSym)) or (isinstance(a, Opaque) and a.kind in ("new", "obj", "copy", "deepcopy", "seq"))):
+            if isinstance(b, Const) and b.v is None and (isinstance(a, (Num, Seq, DictV, Closure, ClassRef, Template, MapV, StrSym)) or (isinstance(a, Opaque) and a.kind in ("new", "obj", "copy", "deepcopy", "seq", "str"))):
                 return Const(op == "isnot")
-            if isinstance(a, Const) and a.v is None and (isinstance(b, (Num, Seq, DictV, Closure, ClassRef, Template)) or (isinstance(b, Opaque) and b.kind in ("new", "obj", "copy", "deepcopy"))):
+            if isinstance(a, Const) and a.v is None and (isinstance(b, (Num, Seq, DictV, Closure, ClassRef, Template)) or (isinstance(b, Opaque) and b.kind in ("new", "obj", "copy", "deepcopy", "str"))):
                 return Const(op == "isnot")
             ka, kb = key(a), key(b)
             if ka == kb and (isinstance(a, (Seq, DictV)) and a.ident is not None or isinstance(a, Opaque)):
@@ -1057,6 +1090,8 @@ class Evaluator:
             return self._dist(lambda xs: self.binop(op, xs[0], xs[1], n), [a, b])
         # string / sequence operations
         if op is ast.Mod and (isinstance(a, Const) and isinstance(a.v, str) or isinstance(a, Template)):
+            if n is not None:
+                self.strmod_nodes.add(n)  # this `%` formats a string on at least one evaluated path
             return self.percent_format(a, b)
         if op is ast.Add:
             if isinstance(a, StrSym) and isinstance(b, StrSym) and a.upper == b.upper:
@@ -1931,6 +1966,28 @@ class Evaluator:
     def bind(self, target, v, st):
         if isinstance(target, ast.Name):
             st.env.assign(target.id, v)
+        elif isinstance(target, (ast.Tuple, ast.List)) and sum(isinstance(t, ast.Starred) for t in target.elts) == 1:
+            # a, *rest, z = seq
+            k = next(i for i, t in enumerate(target.elts) if isinstance(t, ast.Starred))
+            before, after = target.elts[:k], target.elts[k + 1:]
+            if isinstance(v, Seq) and len(v.items) >= len(before) + len(after):
+                for t, x in zip(before, v.items):
+                    self.bind(t, x, st)
+                mid = v.items[len(before): len(v.items) - len(after)]
+                self.bind(target.elts[k].value, Seq("list", list(mid)), st)
+                for t, x in zip(after, v.items[len(v.items) - len(after):]):
+                    self.bind(t, x, st)
+            elif isinstance(v, Seq):
+                st.events.append(("unpack-arity", len(before) + len(after), len(v.items), target))
+                for t in before + after:
+                    self.bind(t, Opaque("<unpack-error>"), st)
+                self.bind(target.elts[k].value, Opaque("<unpack-error>"), st)
+            else:
+                for i, t in enumerate(before):
+                    self.bind(t, self.getitem(v, C(i), st) if isinstance(v, Opaque) else Opaque("%s[%d]" % (key(v), i)), st)
+                for i, t in enumerate(after):
+                    self.bind(t, Opaque("%s[%d]" % (key(v), i - len(after))), st)
+                self.bind(target.elts[k].value, Opaque("%s[%d:%s]" % (key(v), len(before), -len(after) if after else "")), st)
         elif isinstance(target, (ast.Tuple, ast.List)):
             n = len(target.elts)
             if isinstance(v, Seq) and len(v.items) == n:
@@ -1995,6 +2052,9 @@ class Evaluator:
         """Execute stmts then the continuation stack `cont` (list of stmt lists) to the
         end of the function.  Returns Ret or None."""
         for i, s in enumerate(stmts):
+            if isinstance(s, ast.Try):
+                # rewritten in place (see try_rewrite) so that exits inside it meet the right continuation
+                return self.block(self.try_rewrite(s, st) + list(stmts[i + 1:]), st, cont)
             if isinstance(s, ast.If):
                 c = self.cond(s.test, st)
                 rest = list(stmts[i + 1:])
@@ -2144,14 +2204,47 @@ class Evaluator:
             r = self.block(s.body, st, [])
             return r
         if isinstance(s, ast.Try):
-            r = self.block(s.body, st, [])
-            return r
+            return self.try_stmt(s, st)
         if isinstance(s, ast.Continue):
             return Ret(CONTINUE)
         if isinstance(s, ast.Break):
             return Ret(BREAK)
         st.events.append(("stmt-unknown", ntext(s), s))
         return None
+
+    def try_stmt(self, s, st):
+        return self.block(self.try_rewrite(s, st), st, [])
+
+    def try_rewrite(self, s, st):
+        """try/except as a statement list: exceptions are not modelled in general (the body is evaluated, then else/finally).
+        One idiom is: a body whose only raising construct of interest is a single table look-up `D[k]` under a handler for
+        KeyError is evaluated as `if k in D: <body; else-part> else: <handler>` (that is what the statement does)."""
+        lookups = []
+        for stn in s.body:
+            for nd in ast.walk(stn):
+                if isinstance(nd, FUNC_NODES):
+                    continue
+                if isinstance(nd, ast.Subscript) and isinstance(nd.ctx, ast.Load) and not isinstance(nd.slice, (ast.Slice, ast.Constant)):
+                    lookups.append(nd)
+        handler = None
+        for h in s.handlers:
+            names = ["BaseException"] if h.type is None else ([ntext(x) for x in h.type.elts] if isinstance(h.type, ast.Tuple) else [ntext(h.type)])
+            if any(nm in ("KeyError", "LookupError", "Exception", "BaseException") for nm in names):
+                handler = h
+                break
+        if handler is not None and len(lookups) == 1:
+            base = self.expr(lookups[0].value, st)
+            dictlike = isinstance(base, DictV) or (isinstance(base, Opaque) and base.kind in ("obj", "dict"))
+            if dictlike:
+                import copy as _copy
+
+                test = ast.Compare(left=_copy.deepcopy(lookups[0].slice), ops=[ast.In()], comparators=[_copy.deepcopy(lookups[0].value)])
+                synth = ast.If(test=test, body=list(s.body) + list(s.orelse), orelse=list(handler.body))
+                ast.copy_location(synth, s)
+                ast.fix_missing_locations(synth)
+                synth._parent = getattr(s, "_parent", None)
+                return [synth] + list(s.finalbody)
+        return list(s.body) + list(s.orelse) + list(s.finalbody)
 
     # loops --------------------------------------------------------------------
     def assigned_in(self, stmts):
